@@ -388,15 +388,16 @@ def validate(ctx, trace_path, prefixes, label, timeout=3000, heap="8g", per_sign
 RULE = ("programs = (a) every transition of the exhaustive TLC state graph of spec/Stmt.tla over the listed scenarios/bounds, "
         "each as a labelled path from Init (maximal paths; a seeded sample when there are more than the tier's cap), and "
         "(b) seeded random well-formed programs from harness/cmd/stmt on random clusters (nested checkpoints, rollback, unevict, "
-        "evict-then-pipeline of the same pod incl. to another GPU / node, convert, several statements per session, commit with "
-        "injected Bind/Evict failures); every program runs on a real Statement of a fresh real Session; non-trivial = the program "
+        "evict-then-pipeline of the same pod incl. to another GPU / node, gpu-fraction and gpu-memory pods on nodes whose devices "
+        "have different memory sizes, convert, several statements per session, commit with injected Bind/Evict failures); every program runs on a real Statement of a fresh real Session; non-trivial = the program "
         "contains a Rollback, Discard or Commit; distinct by (scenario, operation sequence)")
 
 ASSUMPTIONS = [
     "GPU groups of a Pending pod are a caller scratch field (gpu_sharing assigns them before Allocate/Pipeline and nothing restores them): normalised to empty in the C13 comparison",
     "zero-valued entries of the per-GPU-group maps are equal to absent entries (group ids are fresh UUIDs in production)",
     "sessions come from the real snapshot of a real SchedulerCache on fake clientsets; only Session.Cache is wrapped (recording, failure injection); resource claims / storage are not part of the scenarios",
-    "Stmt.tla models the intended behaviour for findings F14, F15, F21, F22; other oddities of statement.go are transcribed as they are",
+    "Stmt.tla models the repaired behaviour for findings F14, F15, F21, F22 and for a Commit stopped by a failed bind (6091c57); the whole-device transfer heuristics of gpu_sharing_node_info.go (known finding F23) and the other oddities of statement.go are transcribed as they are",
+    "un-evict is judged against the projection logged before the pod's latest Evict in the session; the phantom check compares the pods' virtual flags at Commit end with those at the statement's begin",
     "well-formed programs are those the actions can issue: Evict on Running pods, Allocate on Pending pods that fit idle resources, Pipeline on Pending or virtually evicted pods that fit idle+releasing resources, Convert on allocate-shaped statements, Rollback only to logged checkpoints",
     "TLC, CommunityModules Json and the harness projection (floats -> milli-units) are trusted",
 ]
